@@ -3,7 +3,9 @@
     their axiom audit and non-vacuity examples. *)
 From Coq Require Import ZArith List Bool Lia.
 From Low Require Import Lib.Bits Lib.BitSeq Lib.Lex Lib.Bytes Model.Sigbits Spec.SigbitsSpec Spec.ShardRouteSpec
-  Proofs.SigbitsShardChecker Proofs.SigbitsLcpAll Proofs.SigbitsShard.
+  Spec.ShardSplitSpec Spec.ShardTotalSpec
+  Proofs.SigbitsShardChecker Proofs.SigbitsLcpAll Proofs.SigbitsShard Proofs.SigbitsShardRoute
+  Proofs.SigbitsShardDomain Model.Sharding32 Proofs.Sharding32Proofs Proofs.SigbitsShardTotal.
 Import ListNotations.
 Open Scope Z_scope.
 
@@ -124,4 +126,128 @@ Proof.
   intros H. specialize (H 1%nat 1%nat ltac:(cbn; auto with arith) ltac:(cbn; auto with arith)).
   destruct H as [H _]. assert (X : (2 <= 1)%Z) by (apply H; vm_compute; discriminate).
   apply X. reflexivity.
+Qed.
+
+(** with such a sharding (both conclusions of [C17_route]) the lookup "last prefix that is not
+    above the key" sends every key to the shard [r] that holds it, [B[r] <= i < B[r+1]] -- the
+    judgement the op [sigbits.ShardByPrefix/route] makes on the implementation's output always
+    accepts the model's *)
+Theorem C17_route_lookup : forall keys maxSize L B,
+  shard_spec keys maxSize L B -> route_spec keys L B ->
+  route_okb (zlen keys) B (map (route (shard_prefixes keys L B)) keys) = true.
+Proof. exact route_lookup. Qed.
+Print Assumptions C17_route_lookup.
+
+(** Widening: the edges of the domain.  When all keys fit into one shard the result is that one
+    shard (no order hypothesis needed); for maxSize = 1 the relation [shard_spec] is a function --
+    every key is its own shard with the whole key as prefix -- so there the checker accepts exactly
+    one output. *)
+Theorem C17_one_shard : forall keys maxSize,
+  keys <> [] -> keys_ok keys -> zlen keys <= maxSize ->
+  ShardByPrefix keys maxSize = Some ([zlen (lcp_all keys)], [0; zlen keys]).
+Proof. exact ShardByPrefix_one_shard. Qed.
+Print Assumptions C17_one_shard.
+
+Theorem C17_maxSize_1 : forall keys L B, shard_spec keys 1 L B ->
+  B = map Z.of_nat (seq 0 (S (length keys))) /\ L = map zlen keys.
+Proof. exact shard_spec_maxSize_1. Qed.
+Print Assumptions C17_maxSize_1.
+
+(** Outside the domain (model facts, not judged on the implementation): an empty key list panics
+    in FirstDiffBits ([make([]int32, -1)]); with maxSize <= 0 the recursion never ends -- [dfs]
+    returns [None] for EVERY amount of fuel, on every range (in Go: `fatal error: stack overflow`,
+    which no [recover] can catch; confirmed on the real code with ShardByPrefix({"a","b"}, 0)). *)
+Theorem C17_empty_panics : forall maxSize, ShardByPrefix [] maxSize = None.
+Proof. exact ShardByPrefix_empty. Qed.
+Print Assumptions C17_empty_panics.
+
+Theorem C17_nonpositive_maxSize_diverges : forall keys fd maxSize, maxSize <= 0 ->
+  forall fuel s e st, s < e -> dfs keys fd maxSize fuel s e st = None.
+Proof. exact dfs_nonpositive_maxSize. Qed.
+Print Assumptions C17_nonpositive_maxSize_diverges.
+
+Example C17_edges_nonvacuous :
+  ShardByPrefix [[97; 98]; [97; 98; 99]; [97; 100]] 3 = Some ([1], [0; 3]) /\
+  zlen (lcp_all [[97; 98]; [97; 98; 99]; [97; 100]]) = 1 /\
+  ShardByPrefix [[97; 98]; [97; 98; 99]; [97; 100]] 1 = Some ([2; 3; 2], [0; 1; 2; 3]) /\
+  shard_spec [[97; 98]; [97; 98; 99]; [97; 100]] 1 [2; 3; 2] [0; 1; 2; 3] /\
+  ShardByPrefix [[97]; [98]] 0 = None /\
+  dfs [[97]; [98]] [0] 0 1000 0 2 ([], [0]) = None.
+Proof.
+  repeat (split; [vm_compute; reflexivity|]). split; [apply shard_ok_sound; vm_compute; reflexivity|].
+  split; vm_compute; reflexivity.
+Qed.
+
+(** Widening: Go's int32 arithmetic made explicit (Model/Sharding32.v: [int32(len(..))], [e-s],
+    [e-1], [i+1] wrap).  When the number of keys and every key length fit into int32 the
+    int32-explicit model is the unbounded one -- over any FirstDiffBits implementation [FDB] that
+    agrees with the modelled one on the keys (so C16's int32-explicit FirstDiffBits can be plugged
+    in) -- hence the property holds of it, with the size hypotheses now explicit premises. *)
+Theorem C17_int32_model_agrees : forall FDB keys maxSize,
+  FDB keys = FirstDiffBits keys ->
+  zlen keys <= max32 -> Forall (fun k => zlen k <= max32) keys ->
+  ShardByPrefix32_with FDB keys maxSize = ShardByPrefix keys maxSize.
+Proof. exact ShardByPrefix32_eq. Qed.
+Print Assumptions C17_int32_model_agrees.
+
+Theorem C17_ShardByPrefix_int32 : forall keys maxSize,
+  keys <> [] -> keys_ok keys -> strict_asc keys -> 1 <= maxSize ->
+  zlen keys <= max32 -> Forall (fun k => zlen k <= max32) keys ->
+  exists L B, ShardByPrefix32_with FirstDiffBits keys maxSize = Some (L, B) /\
+              shard_spec keys maxSize L B /\ route_spec keys L B.
+Proof. exact ShardByPrefix32_correct. Qed.
+Print Assumptions C17_ShardByPrefix_int32.
+
+(** non-vacuity: the same output on an in-range input; and the wraps are really modelled -- for an
+    (impossible) range end beyond int32 the loop bound [e-1] wraps to 0 and the int32 loop is empty *)
+Example C17_int32_nonvacuous :
+  ShardByPrefix32_with FirstDiffBits [[97]; [97; 98; 99]; [97; 98; 100]; [97; 98; 101]] 2
+    = Some ([1; 3; 3; 3], [0; 1; 2; 3; 4]) /\
+  idx_range32 0 4294967297 = [] /\ idx_range32 0 4 = idx_range 0 4 /\ idx_range 0 4 = [0; 1; 2].
+Proof. repeat split; vm_compute; reflexivity. Qed.
+
+(** Widening: the relation made a function.  On the property's domain ShardByPrefix returns
+    exactly what the naive recursive description [spec_ShardByPrefix] (Spec/ShardSplitSpec.v) says:
+    a key list larger than maxSize is cut into the maximal runs of keys that agree on the byte right
+    after the list's longest common prefix (a key ending there is a run of its own), and every run
+    is treated the same way; L is [zlen (lcp_all shard)], B the running key count.  The naive split
+    loses no key (its nesting-depth fuel [len(keys)+1] suffices).  With the theorems above, the
+    naive split therefore satisfies [shard_spec] and [route_spec]. *)
+Theorem C17_exact : forall keys maxSize,
+  keys <> [] -> keys_ok keys -> strict_asc keys -> 1 <= maxSize ->
+  ShardByPrefix keys maxSize = Some (spec_ShardByPrefix keys maxSize) /\
+  concat (split_spec (S (length keys)) maxSize keys) = keys.
+Proof. exact ShardByPrefix_exact. Qed.
+Print Assumptions C17_exact.
+
+Example C17_exact_nonvacuous :
+  let keys := [[0]; [97]; [97; 0]; [97; 98; 99; 100; 101; 102; 103; 104; 105; 1];
+               [97; 98; 99; 100; 101; 102; 103; 104; 105; 128]; [255]] in
+  runs 0 keys = [[[0]]; [[97]; [97; 0]; [97; 98; 99; 100; 101; 102; 103; 104; 105; 1];
+                          [97; 98; 99; 100; 101; 102; 103; 104; 105; 128]]; [[255]]] /\
+  split_spec 7 2 keys = [[[0]]; [[97]]; [[97; 0]];
+                         [[97; 98; 99; 100; 101; 102; 103; 104; 105; 1];
+                          [97; 98; 99; 100; 101; 102; 103; 104; 105; 128]]; [[255]]] /\
+  spec_ShardByPrefix keys 2 = ([1; 1; 2; 9; 1], [0; 1; 2; 3; 5; 6]).
+Proof. cbv zeta. repeat split; vm_compute; reflexivity. Qed.
+
+(** Widening: totality, without any order hypothesis (model fact; the correspondence run stays on
+    the property's domain).  For EVERY non-empty list of byte strings -- unsorted, repeated keys --
+    and maxSize >= 1, ShardByPrefix neither panics nor recurses forever and returns contiguous
+    shards of at most maxSize keys with their exact common-prefix lengths ([shard_spec] without
+    its last clause).  Only the order of the prefixes needs strictly ascending keys: with a
+    repeated key and maxSize = 1 two shards get the same prefix. *)
+Theorem C17_total_any_order : forall keys maxSize,
+  keys <> [] -> keys_ok keys -> 1 <= maxSize ->
+  exists L B, ShardByPrefix keys maxSize = Some (L, B) /\ shard_spec_unordered keys maxSize L B.
+Proof. exact ShardByPrefix_total. Qed.
+Print Assumptions C17_total_any_order.
+
+Example C17_total_nonvacuous :
+  ShardByPrefix [[98]; [97]; [97]; [97; 99]] 2 = Some ([1; 1; 1; 2], [0; 1; 2; 3; 4]) /\
+  shard_ok [[98]; [97]; [97]; [97; 99]] 2 [1; 1; 1; 2] [0; 1; 2; 3; 4] = false /\
+  ~ strict_asc [[98]; [97]; [97]; [97; 99]].
+Proof.
+  split; [vm_compute; reflexivity|]. split; [vm_compute; reflexivity|].
+  intros H. specialize (H ([98], [97]) (or_introl eq_refl)). discriminate H.
 Qed.
